@@ -7,6 +7,7 @@ mod ridiff;
 mod rwdiff;
 mod sysdiff;
 mod util;
+mod watchdiff;
 mod world;
 
 fn main() {
@@ -18,6 +19,7 @@ fn main() {
         "rwdiff" => rwdiff::run(&a),
         "sysdiff" => sysdiff::run(&a),
         "loopdiff" => loopdiff::run(&a),
+        "watchdiff" => watchdiff::run(&a),
         "answers-child" => std::process::exit(answers::child(&a)),
         other => {
             eprintln!("unknown engine {other}");
